@@ -314,7 +314,7 @@ struct World {
         BufSlot &s = bufs[i];
         size_t cap = s.b.capacity;
         PBT_CHECK(cap >= expect.size(), "%s: capacity %zu smaller than the %zu bytes it must hold", opname, cap, expect.size());
-        PBT_CHECK(cap <= 4 * MAXCAP + 64, "%s: capacity %zu out of proportion", opname, cap);
+        PBT_CHECK(cap <= 16 * MAXCAP + 4096, "%s: capacity %zu out of proportion", opname, cap);
         PBT_CHECK((s.b.buffer == nullptr) == (cap == 0), "%s: buffer NULL <=> capacity 0 violated (cap %zu)", opname, cap);
         if (cap) {
             size_t sz = 0;
